@@ -59,9 +59,12 @@ fn clean_command(path: &str) -> Result<()> {
 
     for path in paths {
         let path = path?;
-        if Path::new(&path.file_name())
-            .extension()
-            .is_some_and(|ext| ext == "mmm")
+        // a directory is never a bytecode file, whatever it is called (and `remove_file` would fail on it)
+        let is_dir = path.file_type()?.is_dir();
+        if !is_dir
+            && Path::new(&path.file_name())
+                .extension()
+                .is_some_and(|ext| ext == "mmm")
         {
             std::fs::remove_file(path.path())?;
             println!("clean {}", path.path().display().to_string().blue());
